@@ -37,9 +37,33 @@ pub broadcast axiom fn axiom_string_from_str(v: &str)
 pub broadcast axiom fn axiom_str_len_bound(s: &str)
     ensures #[trigger] s.spec_bytes().len() <= isize::MAX;
 
-// a str holds at most isize::MAX bytes and every character takes at least one byte
-pub broadcast axiom fn axiom_str_chars_bound(s: &str)
-    ensures #[trigger] s@.len() <= isize::MAX;
+// PROVED: every character takes at least one byte, so a str has at most isize::MAX characters
+pub proof fn lemma_chars_le_bytes(s: Seq<char>)
+    ensures s.len() <= encode_utf8(s).len()
+    decreases s.len()
+{
+    if s.len() > 0 {
+        let q = s.drop_last();
+        lemma_chars_le_bytes(q);
+        encode_utf8_concat(q, seq![s.last()]);
+        assert(q + seq![s.last()] =~= s);
+        assert(encode_utf8(seq![s.last()]).len() >= 1) by {
+            if encode_utf8(seq![s.last()]).len() == 0 {
+                assert(encode_utf8(seq![s.last()]) =~= Seq::<u8>::empty());
+                assert(encode_utf8(Seq::<char>::empty()) =~= Seq::<u8>::empty());
+                encode_utf8_decode_utf8(seq![s.last()]);
+                encode_utf8_decode_utf8(Seq::<char>::empty());
+            }
+        }
+    }
+}
+pub broadcast proof fn axiom_str_chars_bound(s: &str)
+    ensures #[trigger] s@.len() <= isize::MAX
+{
+    lemma_chars_le_bytes(s@);
+    axiom_str_len_bound(s);
+    assert(s.spec_bytes() == encode_utf8(s@));
+}
 
 pub broadcast axiom fn axiom_cow_from_string<'a>(v: String)
     ensures (#[trigger] <Cow<'a, str> as FromSpec<String>>::from_spec(v))@ == v@;
